@@ -84,6 +84,13 @@ def mir_dump():
         os.rename(tmp, mir)
         # keep the sources the dump was made from (impl spans / struct layouts)
         subprocess.run(['rsync', '-a', '--delete', os.path.join(src, 'src'), srcdir + '/'], check=True)
+        # the prost-generated message structs (field order of the protocol types)
+        import glob
+        gens = sorted(glob.glob(os.path.join(env['CARGO_TARGET_DIR'], 'debug', 'build', 'deltio-*', 'out', 'google.pubsub.v1.rs')),
+                      key=os.path.getmtime)
+        if gens:
+            os.makedirs(os.path.join(srcdir, 'src', 'pubsub_proto_generated'), exist_ok=True)
+            subprocess.run(['cp', gens[-1], os.path.join(srcdir, 'src', 'pubsub_proto_generated', 'google_pubsub_v1.rs')], check=True)
         # prune old dumps
         ents = sorted((os.path.getmtime(os.path.join(mdir, f)), f) for f in os.listdir(mdir) if f.endswith('.mir'))
         for _, f in ents[:-6]:
